@@ -32,7 +32,9 @@ __all__ = ["Cache", "parallelise", "parallelise_keyless"]
 
 
 def _pickle_name(k: Hashable) -> str:
-    return f"{k}.p"
+    # A key may contain a path separator (e.g. "ATP/ADP"): keep the name flat and unique
+    name = str(k).replace("%", "%25").replace("/", "%2F")
+    return f"{name}.p"
 
 
 def _pickle_load(file: Path) -> Any:
